@@ -27,7 +27,8 @@ EXPLANATION = (
     "evaluated from its expression tree for every MaxFileId in [0,200000] and powers of two up to 2^30 and must exceed "
     "it. (R4) In ReadEntityRef `id += addFileId` dominates FindFileId(id). (R5) maxFileId, from which the offset is computed, is a high-water mark: "
     "it is only written -1, max+1 or an instance id under the guard `id > MaxFileId()` (writer rule shared with C13). (R5) writers of maxFileId (shared with C13 R3). (R6) every InstMgr method that empties the master array leaves maxFileId below the threshold of STEPfile::SetFileIdIncrement's emptiness test. Not decided: that earlier instances keep "
-    "their values; behaviour for ids near INT_MAX.")
+    "their values; behaviour for ids near INT_MAX."
+    " (R7, shared with C03 R9) an instance id read from the file is never converted to a narrower integer type.")
 
 FAMILY = r"^(addFileId|idIncr\w*|fileIdIncr)$"
 # header-section instances live in the separate _headerInstances manager, are numbered by the reader
@@ -49,7 +50,7 @@ def shift_before_use(prog, res, fname, file_suffix, rule, is_shift_expr, what):
         for n in f.walk():
             if n["k"] == "Call" and n.get("opcall") == ">>" and len(n["ch"]) == 2:
                 v = strip(n["ch"][1])
-                if v["k"] == "Ref" and v.get("dk") == "local" and f.ty(v) == "int":
+                if v["k"] == "Ref" and v.get("dk") == "local" and f.ty(v) in ("int", "unsigned int", "long", "unsigned long", "long long", "unsigned long long", "short", "unsigned short"):
                     extracted.setdefault(v["d"], n)
         for d, ext in extracted.items():
             shift_nodes = [n for n in f.walk() if is_shift_expr(f, n, d)]
@@ -329,6 +330,8 @@ def r5(prog, res):
 
 def run(prog, res, tier):
     from rules import c13 as _c13
+    from rules import c03_more as _c03m
+    _c03m.r9_parsed_number_not_narrowed(prog, res, rule="R7.parsed_id_not_narrowed")
     _c13.r3_clear_resets_max(prog, res, rule="R6.cleared_manager_is_recognised_empty")
     r1(prog, res)
     r2(prog, res)
